@@ -319,8 +319,13 @@ class BaseEvent(BaseModel, Generic[T_EventResultType]):
 
                             # Process one event from this bus if available
                             try:
-                                if bus.event_queue.qsize() > 0:
-                                    event = bus.event_queue.get_nowait()
+                                # the oldest one may already be in the hands of the bus's run loop, which cannot
+                                # start it as long as we hold the global lock: take it over
+                                event = bus._dequeued_event  # pyright: ignore[reportPrivateUsage]
+                                bus._dequeued_event = None  # pyright: ignore[reportPrivateUsage]
+                                if event is not None or bus.event_queue.qsize() > 0:
+                                    if event is None:
+                                        event = bus.event_queue.get_nowait()
                                     try:
                                         await bus.process_event(event)
                                     finally:
@@ -328,6 +333,12 @@ class BaseEvent(BaseModel, Generic[T_EventResultType]):
                                         # otherwise bus.wait_until_idle() blocks forever on event_queue.join()
                                         bus.event_queue.task_done()
                                     processed_any = True
+                                    # that bus's run loop may be stuck behind the global lock (which we hold) and
+                                    # unable to tell a wait_until_idle() that nothing is left to do
+                                    if bus._on_idle and not (  # pyright: ignore[reportPrivateUsage]
+                                        bus.events_pending or bus.events_started or bus.event_queue.qsize()
+                                    ):
+                                        bus._on_idle.set()  # pyright: ignore[reportPrivateUsage]
                                     # Check if the event we're waiting for is now complete
                                     if self.event_completed_signal.is_set():
                                         break
